@@ -29,3 +29,14 @@ Definition expect_call (t : ty) (sel base : list Z) (cs : list corr) : list stri
 Definition expect_payload (t : ty) (base : list Z) (cs : list corr) : list string :=
   map (fun c => outcome t base (accept_payload t (apply_c c base))) cs.
 Definition join (l : list string) : string := String.concat "," l.
+
+(* length of the (single) top-level argument as the program sees it: observes the decoder without the encoder *)
+Definition top_len (r : option val) : string :=
+  match r with
+  | Some (VList [VList vs]) => hexZ (zlen vs)
+  | Some (VList [VBytes b]) => hexZ (zlen b)
+  | Some _ => "?"%string
+  | None => "R"%string
+  end.
+Definition expect_len (t : ty) (sel base : list Z) (cs : list corr) : list string :=
+  map (fun c => top_len (accept_call t (sel ++ apply_c c base))) cs.
